@@ -307,11 +307,15 @@ func sigClass(sig string) string {
 // Minimise shrinks params structurally and the decision list by delta debugging
 // while the same violation signature persists. Returns the final params, the
 // strict decision list and the violation as re-observed.
-func Minimise(prop Property, params any, dec []vsim.Decision, v *Violation, tier string, race bool, budget int) (any, []vsim.Decision, *Violation, int) {
+func Minimise(prop Property, params any, dec []vsim.Decision, v *Violation, tier string, race bool, budget int, isKnown func(string) bool) (any, []vsim.Decision, *Violation, int) {
 	tries := 0
 	run := func(p any, d []vsim.Decision, mode int) (*Violation, []vsim.Decision) {
 		tries++
 		x := &X{Tier: tier, Race: race, Stats: NewStats(), Quiet: true, ReplayDecisions: d, ReplayMode: mode}
+		if isKnown != nil {
+			x.IsKnown = isKnown
+			x.NoteKnown = func(string, string) {}
+		}
 		if d == nil {
 			x.ReplayMode = 0
 		}
